@@ -90,7 +90,7 @@ pub fn scene(k: usize) -> Scene {
             c.meta = CloudMeta {
                 guid: Some("c0 ]]>".into()),
                 name: Some("na<me".into()),
-                description: Some("de&sc\nline2".into()),
+                description: Some("de&sc\nline2\r\nline3\r".into()),
                 original_guids: Some(vec!["og1".into(), "".into(), "o]]>g".into()]),
                 sensor_vendor: Some("v\u{e9}ndor".into()),
                 sensor_model: Some("m\u{10000}".into()),
